@@ -92,6 +92,10 @@ class StoreMachine(LoggedMachine):
     def fdefs(self):
         return [BULK] if self.with_bulk else []
 
+    def _unlog(self):
+        if isinstance(self.log, list) and self.log:
+            self.log.pop()
+
     def _fail(self, clause, detail, disc=''):
         self.ctx.fail(clause, 'mismatch', 'TrajectoryStore', disc, detail, self.log)
 
@@ -107,6 +111,12 @@ class StoreMachine(LoggedMachine):
     def teardown(self):
         try:
             self._final_scan()
+        except core.AlreadyReported:
+            pass
+        except Exception as e:  # noqa: BLE001
+            # Hypothesis cannot take a reject() during teardown (the example is already frozen)
+            if type(e).__name__ != 'UnsatisfiedAssumption':
+                raise
         finally:
             self._close_quietly()
             for f in self.flags:
@@ -283,10 +293,45 @@ class StoreMachine(LoggedMachine):
         if self.rejected_then_added == 1:
             self.rejected_then_added = 2
 
+    @precondition(lambda self: not self.finished and self.store is not None and self.mode in ('w', 'a') and self.with_bulk)
+    @rule(k=st.integers(4, 6), seed=st.integers(0, 2**20), raw_id=st.integers(0, 2**40))
+    def burst_add(self, k, seed, raw_id):
+        """Several bulky additions in a row (more than a 1 MB cache holds), then a read of every index."""
+        self.op('burst_add', k=k, seed=seed, raw_id=raw_id)
+        for j in range(k):
+            d = {'n': 450 + 10 * j, 'seed': seed + j, 'name': None, 'flight_id': None,
+                 'extras': {sc.fs_name(BULK): _bulk_values(seed + j, FILE_SPECIES if not self.model else FILE_SPECIES[: 1 + (seed + j) % 2])}}
+            if self.identified:
+                d['flight_id'] = self._fresh_id(raw_id + 13 * j)
+            self.add(None, 0, _desc=d)
+            self._unlog()  # the inner add is part of this logged step
+        evicted = [i for i in range(len(self.model)) if i not in self.store._trajectories]
+        if any(i >= self.session_start for i in evicted):
+            self.flags.add('reload_after_eviction')
+        if self.mode == 'a' and any(i < self.session_start for i in range(len(self.model))) and len(self.model) > self.session_start:
+            self.flags.add('old_read_after_add_in_append')
+        for i in range(len(self.model)):
+            self._check_item(i, 'burst')
+
     def TS_eviction(self):
         from AEIC.trajectories.store import TrajectoryCache
 
         return TrajectoryCache.EvictionOccurred
+
+    @precondition(lambda self: not self.finished and self.store is not None and self.mode == 'mem'
+                  and 'memory_eviction_refused' in self.flags)
+    @rule(n=st.integers(1, 20), seed=st.integers(0, 2**20), raw_id=st.integers(0, 2**40))
+    def add_small_after_refusal(self, n, seed, raw_id):
+        """After an in-memory store refused an addition, a trajectory that still fits must get the next index."""
+        self.op('add_small_after_refusal', n=n, seed=seed, raw_id=raw_id)
+        d = {'n': n, 'seed': seed, 'name': None, 'flight_id': None, 'extras': {}}
+        if self.with_bulk:
+            d['extras'][sc.fs_name(BULK)] = _bulk_values(seed, FILE_SPECIES[:1] if self.model else FILE_SPECIES)
+        if self.identified:
+            d['flight_id'] = self._fresh_id(raw_id)
+        self.flags.add('small_add_after_memory_refusal')
+        self.add(None, 0, _desc=d)
+        self._unlog()
 
     @precondition(lambda self: not self.finished and self.store is not None and self.model)
     @rule(k=st.integers(0, 10**6), which=st.sampled_from(['any', 'old', 'newest', 'oldest']))
@@ -528,7 +573,7 @@ class StoreMachine(LoggedMachine):
             t._data['starting_mass'] = None  # what a never-assigned required scalar holds
         if kind in ('missing_fieldset', 'extra_fieldset') and not self.model and self.mode != 'a':
             # the first trajectory of a new store defines the schema: it is valid
-            self.log.pop()
+            self._unlog()
             self.ctx.evaluations -= 1
             return
         first = not self.model
@@ -547,6 +592,40 @@ class StoreMachine(LoggedMachine):
         self._fail('add.invalid_accepted', f'invalid trajectory ({kind}) was accepted (mode {self.mode})', f'{kind}/{self.mode_class()}')
         # keep the model consistent with what the store did so later steps stay meaningful
         self.model.append(desc)
+
+    # ---- "all or none" across merged inputs (C08)
+    @precondition(lambda self: self.ENABLE_MERGE and not self.finished and self.store is None and self.path.exists()
+                  and self.model)
+    @rule(other_first=st.booleans(), n=st.integers(1, 3))
+    def merge_mixed_refused(self, other_first, n):
+        """Merging this store with one of the opposite kind (identified vs not) must be refused and move nothing."""
+        self.op('merge_mixed_refused', other_first=other_first, n=n)
+        self.ctx.evaluations += 1
+        self.TS.active_in_thread = None
+        k = sum(1 for s in self.log if s['op'] == 'merge_mixed_refused') if isinstance(self.log, list) else 0
+        p = self.dir / f'mixed{k}_{int(other_first)}.nc'
+        out = self.dir / f'mixed{k}_{int(other_first)}.aeic-store'
+        if p.exists() or out.exists():
+            return
+        with self.TS.create(base_file=p) as s:
+            for j in range(n):
+                d = {'n': 2 + j, 'seed': 77 + j, 'name': None, 'flight_id': (None if self.identified else 900000 + j), 'extras': {}}
+                if self.with_bulk:
+                    d['extras'][sc.fs_name(BULK)] = _bulk_values(j, FILE_SPECIES[:1])
+                s.add(sc.build_traj(d, self.fdefs))
+        inputs = [p, self.path] if other_first else [self.path, p]
+        try:
+            self.TS.merge(output_store=out, input_stores=inputs)
+        except core.PASS_THROUGH:
+            raise
+        except Exception:  # noqa: BLE001  (the refusal)
+            self.flags.add('mixed_merge_refused')
+            if not self.path.exists() or not p.exists():
+                self._fail('merge_mixed.moved', 'a refused merge of identified and unidentified stores moved an input file')
+            return
+        self._fail('merge_mixed.accepted', f'merge of an identified with an unidentified store was accepted (unidentified first: {other_first == self.identified})',
+                   'other_first' if other_first else 'other_last')
+        self.finished = True
 
     # ---- terminal merge with lookups (C08)
     @precondition(lambda self: self.ENABLE_MERGE and not self.finished and self.store is None and self.path.exists()
@@ -609,3 +688,187 @@ class StoreMachine(LoggedMachine):
         if n:
             for i in {0, n - 1, (self.nsteps * 7) % n}:
                 self._check_item(i, 'invariant')
+
+
+# ----------------------------------------------------------------------------
+# structured histories ("plans"): sessions of targeted operations, executed
+# through the same machine methods (so the oracle and the replay format are
+# shared).  Built so that the risk classes occur by construction: several
+# bulky additions under a 1 MB cache, append sessions that read old and new
+# indices, repeated reopening, refusals followed by additions.
+
+
+@st.composite
+def plan_strategy(draw, lookups=False, faults=False):
+    template = draw(st.sampled_from(['free', 'free', 'free', 'mem_overflow', 'append_evict']))
+    if template == 'mem_overflow':
+        # an in-memory store that has to refuse bulky additions, then accepts small ones
+        ops = [{'op': 'burst', 'k': draw(st.integers(3, 5)), 'seed': draw(st.integers(0, 2**20)), 'raw_id': draw(st.integers(0, 2**40))},
+               {'op': 'add_small', 'n': draw(st.integers(1, 20)), 'seed': draw(st.integers(0, 2**20)), 'raw_id': draw(st.integers(0, 2**40))},
+               {'op': 'read_all', 'order': 'forward'}, {'op': 'iterate'},
+               {'op': 'burst', 'k': 2, 'seed': draw(st.integers(0, 2**20)), 'raw_id': draw(st.integers(0, 2**40))},
+               {'op': 'add_small', 'n': draw(st.integers(1, 20)), 'seed': draw(st.integers(0, 2**20)), 'raw_id': draw(st.integers(0, 2**40))},
+               {'op': 'read_all', 'order': 'backward'}, {'op': 'oob'}]
+        if lookups:
+            ops.append({'op': 'lookup_all'})
+        return {'plan': True, 'with_bulk': True, 'identified': draw(st.booleans()),
+                'sessions': [{'mode': 'mem', 'cache': 1, 'ops': ops}]}
+    if template == 'append_evict':
+        # an append session that adds more bulky trajectories than a 1 MB cache holds and reads old and new indices
+        def burst(lo, hi):
+            return {'op': 'burst', 'k': draw(st.integers(lo, hi)), 'seed': draw(st.integers(0, 2**20)), 'raw_id': draw(st.integers(0, 2**40))}
+        s0 = {'mode': 'w', 'cache': draw(st.sampled_from([1, 2048])), 'ops': [burst(2, 3)]}
+        s1 = {'mode': 'a', 'cache': 1, 'ops': [burst(4, 5), {'op': 'read_all', 'order': draw(st.sampled_from(['forward', 'backward', 'new_first']))},
+                                               {'op': 'sync'}, {'op': 'read_all', 'order': 'new_first'}, {'op': 'iterate'}, {'op': 'oob'}]}
+        s2 = {'mode': 'a', 'cache': 1, 'ops': [{'op': 'add_small', 'n': 7, 'seed': draw(st.integers(0, 2**20)), 'raw_id': draw(st.integers(0, 2**40))},
+                                               {'op': 'read_all', 'order': 'backward'}]}
+        if lookups:
+            s1['ops'].append({'op': 'lookup_all'})
+            s2['ops'].append({'op': 'lookup_all'})
+        return {'plan': True, 'with_bulk': True, 'identified': draw(st.booleans()),
+                'sessions': [s0, s1, s2, {'mode': 'r', 'cache': 1, 'ops': [{'op': 'read_all', 'order': 'forward'}]}]}
+    if lookups and draw(st.integers(0, 4)) == 0:
+        # lookups interleaved with additions and explicit syncs, in a create and an append session
+        def small():
+            return {'op': 'add_small', 'n': draw(st.integers(1, 20)), 'seed': draw(st.integers(0, 2**20)),
+                    'raw_id': draw(st.one_of(st.integers(0, 40), st.integers(0, 2**62)))}
+        def seq():
+            out = [small() for _ in range(draw(st.integers(1, 3)))]
+            out += [{'op': 'lookup_all'}, small(), {'op': draw(st.sampled_from(['sync', 'sync', 'iterate']))}, {'op': 'lookup_all'},
+                    small(), {'op': 'lookup_all'}, {'op': 'lookup_absent', 'raw': draw(st.integers(0, 2**62)), 'rel': 'between'}]
+            return out
+        return {'plan': True, 'with_bulk': draw(st.booleans()), 'identified': True,
+                'sessions': [{'mode': 'w', 'cache': draw(st.sampled_from([1, 2048])), 'ops': seq()},
+                             {'mode': 'a', 'cache': draw(st.sampled_from([1, 2048])), 'ops': seq()},
+                             {'mode': 'r', 'cache': 1, 'ops': [{'op': 'lookup_all'}]}]}
+    memory_first = draw(st.integers(0, 4)) == 0
+    sessions = []
+    nsess = draw(st.integers(2, 4))
+    for k in range(nsess):
+        if k == 0:
+            mode = 'mem' if memory_first else 'w'
+        else:
+            mode = draw(st.sampled_from(['a', 'a', 'r']))
+        ops = []
+        nops = draw(st.integers(1, 6))
+        for _ in range(nops):
+            choices = ['read_all', 'read_old', 'iterate', 'oob']
+            if mode != 'r':
+                choices += ['burst', 'burst', 'add_small', 'add_small', 'sync']
+                if faults:
+                    choices += ['add_invalid', 'add_invalid']
+            else:
+                choices += ['add_readonly']
+            if lookups:
+                choices += ['lookup_all', 'lookup_absent']
+            kind = draw(st.sampled_from(choices))
+            op = {'op': kind}
+            if kind == 'burst':
+                op.update(k=draw(st.integers(2, 5)), seed=draw(st.integers(0, 2**20)), raw_id=draw(st.integers(0, 2**40)))
+            elif kind == 'add_small':
+                op.update(n=draw(st.integers(1, 60)), seed=draw(st.integers(0, 2**20)), raw_id=draw(st.one_of(st.integers(0, 40), st.integers(0, 2**62))))
+            elif kind == 'read_all':
+                op.update(order=draw(st.sampled_from(['forward', 'backward', 'new_first'])))
+            elif kind == 'add_invalid':
+                op.update(kind=draw(st.sampled_from(INVALID_KINDS)), n=draw(st.integers(1, 30)), seed=draw(st.integers(0, 2**20)))
+            elif kind == 'lookup_absent':
+                op.update(raw=draw(st.integers(0, 2**62)), rel=draw(st.sampled_from(['raw', 'below', 'above', 'between'])))
+            ops.append(op)
+        if mode in ('w', 'mem') and not any(o['op'] in ('burst', 'add_small') for o in ops):
+            ops.insert(0, {'op': 'add_small', 'n': 5, 'seed': 1, 'raw_id': 3})
+        sessions.append({'mode': mode, 'cache': draw(st.sampled_from([1, 1, 1, 2, 2048])), 'ops': ops})
+    return {'plan': True, 'with_bulk': draw(st.integers(0, 3)) > 0, 'identified': draw(st.booleans()), 'sessions': sessions}
+
+
+def run_plan(machine_cls, ctx: core.Ctx, plan: dict):
+    machine_cls.ctx = ctx
+    m = machine_cls()
+    m.log = plan  # the replay case of a plan is the plan itself
+    m.op = lambda *a, **k: None
+    ctx.current_case = plan
+    try:
+        for k, sess in enumerate(plan['sessions']):
+            if k == 0:
+                StoreMachine.create(m, sess['cache'], plan['identified'], plan['with_bulk'], sess['mode'] == 'mem')
+            else:
+                if m.store is not None:
+                    StoreMachine.close(m)
+                if m.mode == 'mem' or not m.path.exists():
+                    break
+                if m.store is None and m.path.exists():
+                    StoreMachine.reopen(m, sess['mode'] == 'a', sess['cache'])
+            if m.store is None:
+                break
+            for op in sess['ops']:
+                kind = op['op']
+                if kind == 'burst' and m.mode in ('w', 'a') and m.with_bulk:
+                    StoreMachine.burst_add(m, op['k'], op['seed'], op['raw_id'])
+                elif kind == 'burst' and m.mode == 'mem' and m.with_bulk:
+                    for j in range(op['k']):
+                        d = {'n': 480 + j, 'seed': op['seed'] + j, 'name': None, 'flight_id': None,
+                             'extras': {sc.fs_name(BULK): _bulk_values(op['seed'] + j, FILE_SPECIES)}}
+                        if m.identified:
+                            d['flight_id'] = m._fresh_id(op['raw_id'] + j)
+                        StoreMachine.add(m, None, 0, _desc=d)
+                elif kind in ('burst', 'add_small') and m.mode in ('w', 'a', 'mem'):
+                    n = op.get('n', 30)
+                    if m.mode == 'mem' and 'memory_eviction_refused' in m.flags:
+                        m.flags.add('small_add_after_memory_refusal')
+                    d = {'n': n, 'seed': op['seed'], 'name': None, 'flight_id': None, 'extras': {}}
+                    if m.with_bulk:
+                        d['extras'][sc.fs_name(BULK)] = _bulk_values(op['seed'], FILE_SPECIES if not m.model else FILE_SPECIES[: 1 + op['seed'] % 2])
+                    if m.identified:
+                        d['flight_id'] = m._fresh_id(op['raw_id'])
+                    StoreMachine.add(m, None, 0, _desc=d)
+                elif kind == 'read_all' and m.model:
+                    n = len(m.model)
+                    idx = list(range(n))
+                    if op['order'] == 'backward':
+                        idx = idx[::-1]
+                    elif op['order'] == 'new_first':
+                        idx = idx[m.session_start:] + idx[: m.session_start]
+                    for i in idx:
+                        if i not in m.store._trajectories and i >= m.session_start and m.mode in ('w', 'a'):
+                            m.flags.add('reload_after_eviction')
+                        if m.mode == 'a' and i < m.session_start and n > m.session_start:
+                            m.flags.add('old_read_after_add_in_append')
+                        m._check_item(i, 'read_all')
+                elif kind == 'read_old' and m.model:
+                    StoreMachine.read(m, 0, 'old')
+                elif kind == 'iterate' and m.model:
+                    StoreMachine.iterate(m)
+                elif kind == 'oob':
+                    StoreMachine.read_out_of_range(m, 0)
+                    StoreMachine.read_out_of_range(m, 3)
+                elif kind == 'sync' and m.mode in ('w', 'a'):
+                    StoreMachine.sync(m)
+                elif kind == 'add_readonly' and m.mode == 'r':
+                    StoreMachine.add_readonly(m, None, _desc={'n': 3, 'seed': 9, 'name': None, 'flight_id': None, 'extras': (
+                        {sc.fs_name(BULK): _bulk_values(9, FILE_SPECIES[:1])} if m.with_bulk else {})})
+                elif kind == 'add_invalid' and m.mode in ('w', 'a', 'mem'):
+                    d = {'n': op['n'], 'seed': op['seed'], 'name': None, 'flight_id': None, 'extras': (
+                        {sc.fs_name(BULK): _bulk_values(op['seed'], FILE_SPECIES[:1])} if m.with_bulk else {})}
+                    StoreMachine.add_invalid(m, None, op['kind'], _desc=d)
+                elif kind == 'lookup_all' and m.identified and m.ids and m.mode != 'mem':
+                    if getattr(m.store, 'index_stale', False):
+                        m.flags.add('lookup_while_stale')
+                    if m.mode == 'a':
+                        m.flags.add('lookup_in_append')
+                    for fid in list(m.ids):
+                        m._lookup(fid, 'lookup_all')
+                elif kind == 'lookup_absent' and m.identified and m.ids and m.mode != 'mem':
+                    StoreMachine.lookup_absent(m, op['raw'], op['rel'])
+                m.log = plan
+                if m.store is not None:
+                    m.inv()
+        ctx.evaluations += 1
+    finally:
+        m.log = plan
+        m.teardown()
+
+
+def replay_any(machine_cls, ctx: core.Ctx, case):
+    if isinstance(case, dict) and case.get('plan'):
+        run_plan(machine_cls, ctx, case)
+    else:
+        core.replay_machine(machine_cls, ctx, case)
